@@ -237,6 +237,10 @@ def build(f, cs, shape, by='raw', **kw):
     """an object of format f holding the codes cs (list) in `shape` (tuple, or () for a scalar from cs[0]).
     by='raw': codes written with raw=True (value type unset); by='value': built from the exact values - Python/NumPy ints
     when n_frac <= 0 (the object then carries an integer value type), floats otherwise."""
+    if not by.startswith('env:template'):
+        Fxp.template = None                     # a class-level template set for the previous case ends here
+    if by.startswith('env:'):
+        return build_env(f, cs, shape, by[4:], **kw)
     if by in AGED:
         return build_aged(f, cs, shape, by, **kw)
     if by == 'raw':
@@ -389,3 +393,52 @@ def build_aged(f, cs, shape, how, **kw):
                 x.set_val(cs[i], raw=True, index=idx)
         return x
     raise ValueError(how)
+
+
+# ---------------------------------------------------------------------------------------------------------------------
+# Environments: a second public feature in force while the judged operation runs.  Each of them is behaviour-neutral for
+# arithmetic with given sizing, bitwise operators, shifts, comparisons, conversions and reductions (the properties do not
+# mention them), so the oracle is the one of the default environment.  by='env:<name>' builds the operand raw under it.
+class SubFxp(Fxp):
+    """a user subclass without any override"""
+    pass
+
+
+ENV_CFG = ('dtype_notation=Q', 'array_op_method=raw', 'n_word_max=128', 'max_error=0.015625', 'bin_prefix=0b', 'op_input_size=best',
+           'const_op_sizing=largest', 'op_method=repr')
+ENVS = tuple('cfg:' + c for c in ENV_CFG) + ('template:u', 'template:s', 'subclass', 'flagged', 'callbacks')
+# environments that do change what an operation means are left out per check (e.g. op_method for raw-vs-repr comparisons)
+
+
+def build_env(f, cs, shape, env, **kw):
+    arr = np.array(cs, dtype=np.int64).reshape(shape) if shape != () else cs[0]
+    if env.startswith('cfg:'):
+        k, v = env[4:].split('=')
+        x = Fxp(arr, f[0], f[1], f[2], raw=True, **kw)
+        cur = getattr(x.config, k)
+        setattr(x.config, k, type(cur)(v) if not isinstance(cur, (bool, type(None))) else v)
+        return x
+    if env.startswith('template:'):
+        # a class-level template of the named signedness (another format, non-default modes) is in force from here on
+        t = Fxp(None, env.endswith('s'), 11, 3, rounding='around', overflow='wrap')
+        Fxp.template = t
+        return Fxp(arr, f[0], f[1], f[2], raw=True, rounding=kw.pop('rounding', 'trunc'), overflow=kw.pop('overflow', 'saturate'), **kw)
+    if env == 'subclass':
+        return SubFxp(arr, f[0], f[1], f[2], raw=True, **kw)
+    if env == 'callbacks':
+        return Fxp(arr, f[0], f[1], f[2], raw=True, callbacks=[Recorder()], **kw)
+    if env == 'flagged':
+        # the operand has overflowed, underflowed and lost accuracy before; it now holds the codes cs exactly (flags are sticky)
+        x = Fxp(arr, f[0], f[1], f[2], raw=True, **kw)
+        big = (1 << (f[1] + 2)) + 0.5
+        zero = 0 if shape == () else np.zeros(shape)
+        ov = x.config.overflow
+        x.config.overflow = 'saturate'
+        x.set_val(zero + big, raw=True)
+        x.set_val(zero - big, raw=True)
+        x.config.overflow = ov
+        x.set_val(arr, raw=True)
+        if flags(x) != (True, True, True) or codes(x) != [int(c) for c in (cs if shape != () else cs[:1])]:
+            raise AssertionError('flagged environment not established: %s %s' % (flags(x), codes(x)))
+        return x
+    raise ValueError(env)
